@@ -2,6 +2,8 @@
 
 from __future__ import annotations
 
+from ..vloop import texc
+
 import itertools
 from typing import Any
 
@@ -70,8 +72,8 @@ def run_case(ci: int, seq: tuple[int, ...]) -> list[tuple[str, str]]:
                     last_set = name
                     t = w.spawn(dev.set(val(cfg, name), skip_unchanged=bool(skip)), name="harness-user")
                     loop.settle()
-                    if t.done() and t.exception() is not None:
-                        viols.append((exc_sig("set-raises", t.exception()), f"{t.exception()!r}; trace={trace}"))  # type: ignore[arg-type]
+                    if t.done() and texc(t) is not None:
+                        viols.append((exc_sig("set-raises", texc(t)), f"{texc(t)!r}; trace={trace}"))  # type: ignore[arg-type]
                 elif ev == "init:B":
                     log.append((loop.time(), "init", "B"))
                     last_set = "B"
